@@ -601,7 +601,7 @@ func main() {
 	o := hx.NewOut(f.Out)
 	defer o.Close()
 	nc := len(corpus)
-	n := nc + f.N(1200, 40000)
+	n := nc + f.N(4000, 60000)
 	for k := 0; k < n; k++ {
 		if !f.Want(k) {
 			continue
